@@ -697,3 +697,60 @@ theorem lazy_eq_eager : ∀ (cs : List (List Bool)) (L : Nat),
 example : ((readLazy 0 [[true, true], [true, false, true], [false]])[1]?).bind accessLazy = some 3 := by decide
 
 end C15
+
+/-! ### from the flat offset of a rejected character to the row (the whole path of a value error) -/
+namespace C15
+open C01
+
+theorem firstBad_at_split {α} (p : α → Bool) (good rest : List α) (bad : α) (hg : ∀ a ∈ good, p a = true) (hb : p bad = false) :
+    firstBad p (good ++ bad :: rest) = some good.length := by
+  rw [firstBad_append_good p good _ hg, firstBad_cons]
+  simp [hb]
+
+theorem firstBad_some_split {α} (p : α → Bool) (l : List α) (i : Nat) (h : firstBad p l = some i) :
+    ∃ good bad rest, l = good ++ bad :: rest ∧ (∀ a ∈ good, p a = true) ∧ p bad = false ∧ i = good.length := by
+  have hne : ¬ ∀ a ∈ l, p a = true := fun hall => by
+    rw [firstBad_all_good p l hall] at h; cases h
+  obtain ⟨good, bad, rest, hE, hg, hb⟩ := exists_first_bad p l hne
+  refine ⟨good, bad, rest, hE, hg, hb, ?_⟩
+  rw [hE, firstBad_at_split p good rest bad hg hb] at h
+  exact (Option.some.inj h).symm
+
+theorem sum_map_length_flatten {α} (l : List (List α)) : (l.map List.length).sum = l.flatten.length := by
+  induction l with
+  | nil => rfl
+  | cons x xs ih => simp only [List.map_cons, List.sum_cons, List.flatten_cons, List.length_append, ih]
+
+/-- **C15.offset_to_first_bad_row** — the whole path of a value error in a text column: the column's rows
+are encoded as ONE flat array, the encoder reports the flat offset of the first character that is not
+accepted, and `np.searchsorted(np.cumsum(lengths), offset, side="right")` turns it into a row. For every list
+of rows (empty rows included) and every character predicate: that row is the first row containing a
+rejected character. -/
+theorem offset_to_first_bad_row (ok : Nat → Bool) (rows : List Bytes) (i : Nat)
+    (hfb : firstBad (fun r => r.all ok) rows = some i) :
+    ∃ off, firstBad ok rows.flatten = some off ∧ rowOfOffsetRagged (rows.map List.length) off = i := by
+  obtain ⟨good, bad, rest, hE, hg, hb, hi⟩ := firstBad_some_split _ rows i hfb
+  -- the first rejected character inside the first bad row
+  have hbad : ¬ ∀ c ∈ bad, ok c = true := fun hall => by
+    have : bad.all ok = true := List.all_eq_true.mpr hall
+    simp [this] at hb
+  obtain ⟨pre, c, post, hB, hpre, hc⟩ := exists_first_bad ok bad hbad
+  have hgoodflat : ∀ c ∈ good.flatten, ok c = true := by
+    intro x hx
+    obtain ⟨r, hr, hxr⟩ := List.mem_flatten.mp hx
+    exact (List.all_eq_true.mp (hg r hr)) x hxr
+  refine ⟨good.flatten.length + pre.length, ?_, ?_⟩
+  · rw [hE, List.flatten_append, List.flatten_cons, hB]
+    have : good.flatten ++ ((pre ++ c :: post) ++ rest.flatten) = (good.flatten ++ pre) ++ c :: (post ++ rest.flatten) := by simp
+    rw [this, firstBad_at_split ok (good.flatten ++ pre) (post ++ rest.flatten) c
+      (fun a ha => by rcases List.mem_append.mp ha with h | h; exact hgoodflat a h; exact hpre a h) hc]
+    simp
+  · rw [hE, List.map_append, List.map_cons, ← sum_map_length_flatten good]
+    rw [rowOfOffsetRagged_spec (good.map List.length) bad.length (rest.map List.length) pre.length (by rw [hB]; simp)]
+    simp [hi]
+
+example : firstBad (fun r => r.all (fun c => decide (c < 58))) [[49, 50], [], [51, 120, 52], [120]] = some 2 ∧
+    firstBad (fun c => decide (c < 58)) [[49, 50], [], [51, 120, 52], [120]].flatten = some 3 ∧
+    rowOfOffsetRagged [2, 0, 3, 1] 3 = 2 := by decide
+
+end C15
